@@ -36,34 +36,26 @@ def extension_match(ctx: Ctx) -> None:
     path = f.param_names()[0]
     exts = f.node.args.vararg.arg if f.node.args.vararg else None
     require(exts is not None, f"{f.fq}: no *extensions parameter")
-    low = [n for n, bs in locals_of(f).b.items() for b in bs if b.kind == "assign" and matches("$p.lower()", b.value) and ast.unparse(b.value.func.value) == path]
-    rets = [r for r in body_walk(f.node) if isinstance(r, ast.Return)]
-    form = None
-    ok = False
-    lowtxt = low[0] if len(low) == 1 else f"{path}.lower()"
-    # form 1: for e in extensions: if low.endswith(e): return e ... return None
-    for r in rets:
-        fs = facts(ctx, f, r)
-        for a, pol in fs:
-            m = match("$l.endswith($e)", a)
-            if m and isinstance(r.value, ast.Name) and ast.unparse(m["e"]) == r.value.id:
-                form = "loop"
-                lp_ = [l for l in for_loops(f) if isinstance(l.target, ast.Name) and l.target.id == r.value.id and isinstance(l.iter, ast.Name) and l.iter.id == exts]
-                ok = pol and ast.unparse(inline(m["l"], f)) == f"{path}.lower()" and len(lp_) == 1
-    # form 2: return next((e for e in extensions if low.endswith(e)), None)
-    for r in rets:
-        m = match("next(($e for $e in $xs if $l.endswith($e)), None)", r.value) if r.value is not None else None
-        if m is not None:
-            form = "next"
-            ok = ast.unparse(m["xs"]) == exts and ast.unparse(inline(m["l"], f)) == f"{path}.lower()"
-    if form is None:
-        raise AnalysisError(f"{f.fq}: neither the loop form nor the next(generator) form of the extension search is recognised")
-    ctx.expect("R-SYM", f, "match() compares the lower-cased path's ending with each extension in order and returns the first that fits", ok, form,
-               "the path is not lower-cased before endswith(), or the extensions are not tried in the caller's order", node=f.node)
-    if form == "loop":
-        none_ret = [r for r in rets if r.value is None or (isinstance(r.value, ast.Constant) and r.value.value is None)]
-        cfgf = ctx.cfg(f)
-        ctx.expect("R-TABLE", f, "match() returns None when nothing matches", len(none_ret) == 1 or cfgf.exit in cfgf.reachable(), "", "", node=f.node)
+    from .tables import Dec, judge as tjudge, sums_of as tsums, terminal_and_exit
+    from ..decide import key as ckey
+    sums = tsums(ctx, f)
+    loops = {(ast.unparse(e.target), e.line) for s_ in sums for e in s_.effects if e.kind == "for" and ast.unparse(e.value) == exts}
+    allloops = {e.line for s_ in sums for e in s_.effects if e.kind == "for"}
+    ctx.expect("R-SYM", f, "the extensions are tried in the caller's order", len(loops) == 1 and len(allloops) == 1, str(sorted(loops)), f"loops over *{exts}: {sorted(loops)} of {len(allloops)} loop(s)", node=f.node)
+    if len(loops) == 1 and len(allloops) == 1:
+        ev, line = next(iter(loops))
+        E = f"{path}.lower().endswith({ev})"
+        decs = []
+        for s_ in sums:
+            if s_.end == "raise":
+                continue  # the 'assert extensions' guard
+            asg = dict(s_.plain_assign())
+            if not any(e.kind == "for" for e in s_.effects):
+                asg.setdefault(ckey(E), False)
+            decs.append(Dec(asg, terminal_and_exit(s_), s_))
+        tjudge(ctx, "R-SYM", f, "match() compares the lower-cased path's ending with each extension in order and returns the first that fits, else None", decs, [E],
+               lambda a: f"return {ev} [leaving the loop at this element]" if a[E] else "return None", dont_care=[exts],
+               why="file names are matched case-insensitively: the path is lower-cased, the extension tables are lower-case")
     for name, spec in (("SIMFILE", None), ("IMAGE", SPEC_IMAGE), ("AUDIO", None)):
         v = tuple(p.const(EXT, name))
         ctx.expect("R-SYM", (EXT, ""), f"extensions.{name} entries are lower-case and start with '.'", all(isinstance(x, str) and x == x.lower() and x.startswith(".") for x in v), str(v), str(v))
